@@ -156,7 +156,7 @@ fn cpu_ns(s: &Slot) -> Option<u64> {
 }
 
 pub fn hang_cpu_limit_s() -> u64 {
-    std::env::var("VERIF_HANG_CPU_S").ok().and_then(|s| s.parse().ok()).unwrap_or(20)
+    std::env::var("VERIF_HANG_CPU_S").ok().and_then(|s| s.parse().ok()).unwrap_or(60)
 }
 
 /// Abort the process when one watched run has used more than the CPU budget (or, as a backstop
